@@ -1,7 +1,7 @@
 """C09 - exits do not depend on the reward plumbing: dependency closure (DESIGN 6, C09)."""
 from ..xgraph import XGraph
 from ..callgraph import explore, call_sites, site_guarded
-from ..expr import show
+from ..expr import show, arith_args
 from .common import entry, where, msg_enum, variant_env, stored
 from .msgs import is_zero_const
 
@@ -136,6 +136,52 @@ def run(prog, world, sem, rep):
                 bad.append("divisor %s is not known to be non-zero (%s)" % (show(fr, 4), desc))
         rep.ob("C09.d", "%s::%s division in %s" % (c, vn, v.body.path), not bad, "; ".join(bad) if bad else "divisor %s constant, invariant-backed or guarded" % show(_strip(world, dl), 3),
                where(v.body, bb), key="C09.d | %s::%s | %s" % (c, vn, fk), fkey=fk)
+    # ---------------------------------------------------------------- C09.e
+    rep.rule("C09.e", "sign convention of the signed difference the withdraw path branches on: SignedInt::from_subtraction(a, b) sets the negative flag only "
+             "on an edge on which a < b was observed (checked_sub(a, b) failed, or a strict comparison) - a `negative zero` makes WithdrawUnbonded refuse "
+             "('balance can not be lower than prev one') whenever a released group brought no coins", 1)
+    fb = None
+    for path, b0 in prog.bodies.items():
+        if path.endswith("SignedInt::from_subtraction") and b0.is_fn():
+            fb = b0
+    if fb is None:
+        rep.ob("C09.e", "SignedInt::from_subtraction", False, "anchor-lost: signed_integer::SignedInt::from_subtraction not found")
+    else:
+        fvs = explore(sem, fb)
+        root = [v for v in fvs if v.parent is None][0]
+
+        def operand(x, n):
+            x = _strip(world, x)
+            return x.op == "param" and x.info[1] == n
+
+        def strictly_less(f, resolve):
+            if f[0] == "cmp" and f[1] == "Lt":
+                return operand(f[2], 1) and operand(f[3], 2)
+            c = None
+            if f[0] == "variant" and f[2] == "Err":
+                c = world.ident(f[1], expand_ws=False)
+            if f[0] == "truth" and f[2] is True and f[1].op == "call" and f[1].info.endswith("Result::is_err"):
+                c = world.ident(f[1].args[0], expand_ws=False)
+            if f[0] == "truth" and f[2] is False and f[1].op == "call" and f[1].info.endswith("Result::is_ok"):
+                c = world.ident(f[1].args[0], expand_ws=False)
+            if c is not None and c.op == "proj" and c.args:
+                c = world.ident(c.args[0], expand_ws=False)
+            aa = arith_args(c, "Sub") if c is not None else None
+            return aa is not None and operand(aa[0], 1) and operand(aa[1], 2)
+        neg_sites = []
+        for blk in fb.blocks:
+            if blk.cleanup or blk.idx not in root.blocks:
+                continue
+            for i, st in enumerate(blk.stmts):
+                if st.kind == "assign" and st.rv.kind == "agg" and st.rv.j.get("adt", "").endswith("SignedInt"):
+                    e0 = root.be.ev_rvalue(blk.idx, i, st.rv)
+                    flag = world.ident(e0.args[1], expand_ws=False) if len(e0.args) > 1 else None
+                    if not (flag is not None and flag.op == "const" and flag.info[0] == "scalar" and not flag.info[1]):
+                        neg_sites.append(blk.idx)
+        bad = [b1 for b1 in neg_sites if not site_guarded(sem, root, b1, strictly_less)[0]]
+        rep.ob("C09.e", "negative flag only when minuend < subtrahend", bool(neg_sites) and not bad,
+               "SignedInt(_, true) can be built without minuend < subtrahend having been observed (equal operands give a negative zero)" if bad or not neg_sites
+               else "%d negative construction(s), each behind checked_sub(a, b) failing / a < b" % len(neg_sites), where(fb), key="C09.e | from_subtraction")
     g = XGraph(prog, world, sem)
     starts = list(EXIT_ENTRIES)
     for c in ("bsei", "stsei"):
